@@ -1,7 +1,7 @@
 #!/bin/bash
 # usage: benign_run.sh <id> : applies /tmp/benign/out-<id>/patch.diff in /tmp/benign/<id> and runs all 20 checks there
 ID=$1; W=/tmp/benign/$ID
-cd $W && git checkout -q -- . && git clean -fdq && git apply /tmp/benign/out-$ID/patch.diff || { echo "$ID: patch does not apply"; exit 1; }
+cd $W && git checkout -q -- . && git clean -fdq && git apply /tmp/benign/out${BROUND:-}-$ID/patch.diff || { echo "$ID: patch does not apply"; exit 1; }
 for p in C01 C02 C03 C04 C05 C06 C07 C08 C09 C10 C11 C12 C13 C14 C15 C16 C17 C18 C19 C20; do
   out=$(/verif/bin/nechk -property $p -repo $W -verif /verif -no-evidence -no-replay)
   if [ $? -ne 0 ]; then echo "== benign $ID alarms $p:"; echo "$out" | grep -E "^  (VIOLATED|UNDECIDED)" -A1 | cut -c1-300; fi
